@@ -1,10 +1,16 @@
 package types
 
 import (
+	"math"
+	"math/big"
 	"time"
 
 	sdk "github.com/cosmos/cosmos-sdk/types"
 )
+
+// MaxDurationSeconds is the longest stream duration (in seconds) that can be expressed as a
+// time.Duration, i.e. added to a time.Time without wrapping (~292 years).
+const MaxDurationSeconds = int64(math.MaxInt64 / int64(time.Second))
 
 func PeriodEnumFromString(period string) StreamPeriod {
 	switch period {
@@ -75,12 +81,14 @@ func CalculateDuration(deposit sdk.Coin, flowRate int64) int64 {
 	// no point if the deposit value is zero - e.g. if re-calculating from a new flow rate
 	// of an existing stream
 	if deposit.Amount.GT(sdk.NewIntFromUint64(0)) {
-		// calculate duration in seconds
-		decFlowRate := sdk.NewDecFromInt(sdk.NewIntFromUint64(uint64(flowRate)))
-		decDeposit := sdk.NewDecCoinFromCoin(deposit)
-		decDuration := decDeposit.Amount.QuoTruncateMut(decFlowRate)
-		// note: decimal values are rounded down, e.g. 2628008.9 to just 2628008.
-		return decDuration.TruncateInt64()
+		// calculate duration in seconds: floor(deposit / flowRate), in integer arithmetic.
+		// note: fractions are rounded down, e.g. 2628008.9 to just 2628008.
+		duration := deposit.Amount.Quo(sdk.NewInt(flowRate))
+		if !duration.IsInt64() {
+			// too long to represent; callers reject anything above MaxDurationSeconds
+			return math.MaxInt64
+		}
+		return duration.Int64()
 	}
 
 	return 0
@@ -104,8 +112,12 @@ func CalculateAmountToClaim(
 		// calculate based on flow rate and remaining deposit
 		timeSinceLast := nowTime.Sub(lastOutflowTime)
 		secondsSinceLast := int64(timeSinceLast.Seconds())
-		numCoins := secondsSinceLast * flowRate
-		amountToClaim = sdk.NewCoin(deposit.Denom, sdk.NewIntFromUint64(uint64(numCoins)))
+		if secondsSinceLast < 0 {
+			secondsSinceLast = 0
+		}
+		// arbitrary precision: the product of two int64 does not fit an int64
+		numCoins := sdk.NewInt(secondsSinceLast).Mul(sdk.NewInt(flowRate))
+		amountToClaim = sdk.NewCoin(deposit.Denom, numCoins)
 		if deposit.Amount.GT(amountToClaim.Amount) {
 			remainingDepositValue = deposit.Sub(amountToClaim)
 		} else {
@@ -123,9 +135,10 @@ func CalculateValidatorFee(valFee sdk.Dec, amountToClaim sdk.Coin) (sdk.Coin, sd
 	var finalClaimCoin sdk.Coin
 
 	if valFee.GT(sdk.NewDecFromInt(sdk.NewIntFromUint64(0))) {
-		decCoin := sdk.NewDecCoinFromCoin(amountToClaim)
-		valFeeAmount := decCoin.Amount.Mul(valFee).TruncateInt64()
-		valFeeCoin = sdk.NewCoin(amountToClaim.Denom, sdk.NewIntFromUint64(uint64(valFeeAmount)))
+		// floor(amount * valFee) in arbitrary precision (valFee is an 18 decimal fixed point number)
+		feeAmount := new(big.Int).Mul(amountToClaim.Amount.BigInt(), valFee.BigInt())
+		feeAmount.Quo(feeAmount, sdk.OneDec().BigInt())
+		valFeeCoin = sdk.NewCoin(amountToClaim.Denom, sdk.NewIntFromBigInt(feeAmount))
 		finalClaimCoin = amountToClaim.Sub(valFeeCoin)
 	} else {
 		valFeeCoin = sdk.NewCoin(amountToClaim.Denom, sdk.NewIntFromUint64(0))
